@@ -672,3 +672,7 @@ mod tests {
         state.shutdown().await;
     }
 }
+
+#[cfg(kani)]
+#[path = "/verif/harness/anda_db_server/api_mod.rs"]
+mod verif_kani;
